@@ -1,7 +1,7 @@
 (* Properties_C09.v — UDP datagrams at the basic API level: SendTo is all-or-nothing, ReceiveFrom reports
    exactly what recvfrom() delivered (size, source). The kernel's datagram queue (loopback: ordered, loss-free
    below the queue limit, truncation to the buffer size) is trusted and validated by the harness. *)
-From SP Require Import Base ListAux Os OsLemmas WaitModel WaitLemmas SocketModel SocketLemmas.
+From SP Require Import Base ListAux Os OsLemmas WaitModel WaitLemmas SocketModel SocketLemmas PoolModel Objects DriverModel DriverLemmas SendLink SendToLink Sim.
 Local Open Scope Z_scope.
 
 Section C09.
@@ -66,6 +66,36 @@ Qed.
 
 End C09.
 
+(* The asynchronous SendTo (DriverSendTo on the driver's thread): one queue element = one sendto(); whether the OS takes the
+   datagram (r = size) or refuses it (r < 0), exactly that element leaves the queue, exactly its future is resolved — with
+   the value or with the error — and the remaining elements, other futures and other sockets are untouched: a failed
+   datagram never holds up the later ones. (A datagram socket has no partial writes: 0 <= r <> size is reported as
+   logic_error by sendto_failure_reported.) *)
+Theorem driver_sendto_pops_and_resolves :
+  forall (k f o i dst : Z) (rest : list (Z * Z * Z * Z)) (sk : sock) (ft : fut) (pl : pool) (b : buf) (busy' : list buf) (st : os ext),
+  aget k (x_socks (o_ext st)) = Some sk -> s_sendq sk = (f, o, i, dst) :: rest ->
+  o <? 1000 = true -> aget o (x_pools (o_ext st)) = Some pl -> remove_id i (p_busy pl) = Some (b, busy') ->
+  aget f (x_futs (o_ext st)) = Some ft -> f_state ft = 0 ->
+  forall r err sc, o_script st = EvSendTo r err :: sc -> 0 <= buf_size i (p_busy pl) -> (r = buf_size i (p_busy pl) \/ r < 0) ->
+  exists st',
+    driver_sendto k st = (Ok (match rest with [] => true | _ => false end), st') /\ o_script st' = sc /\
+    o_trace st' = (K_SENDTO, [s_fd sk; buf_size i (p_busy pl); dst; r]) :: o_trace st /\
+    fut_state (o_ext st') f = (if r <? 0 then 2 else 1) /\
+    (forall g, g <> f -> fut_state (o_ext st') g = fut_state (o_ext st) g) /\
+    (exists sk', aget k (x_socks (o_ext st')) = Some sk' /\ s_sendq sk' = rest /\ s_fd sk' = s_fd sk) /\
+    (forall k2, k2 <> k -> aget k2 (x_socks (o_ext st')) = aget k2 (x_socks (o_ext st))).
+Proof. exact SendToLink.driver_sendto_pops_and_resolves. Qed.
+
+(* non-vacuity: two queued datagrams, the first refused (ENETUNREACH... errno 105), the second — an empty one — sent by the
+   next step: future 0 carries the (sliced) error, future 1 the value *)
+Example async_sendto_failed_then_next :
+  let tr := run_case [(1, [1]); (2, []); (40, []); (10, [1; 0; 64]); (21, [1]); (30, [1; 1; 100]); (60, [1; 1; 0]);
+                      (62, [1; 1; 1472; 3]); (62, [1; 1; 0; 7]); (41, [-1]); (41, [-1])]
+                     [(2, [1; 0; 0; 0; 4]); (5, [-1; 105]); (2, [1; 0; 0; 0; 4]); (5, [0; 0])] [] in
+  In (K_SENDTO, [1002; 1472; 3; -1]) tr /\ In (K_FUTURE, [0; 2; 9; 0]) tr /\
+  In (K_SENDTO, [1002; 0; 7; 0]) tr /\ In (K_FUTURE, [1; 1]) tr.
+Proof. vm_compute. repeat split; tauto. Qed.
+
 Example c09_nonvacuous :
   fst (sock_sendto 1000 1472 7 (-1) (os_init tt [EvPoll 1 0 0 [4]; EvSendTo 1472 0] [])) = Ok 1472 /\
   fst (sock_sendto 1000 1472 7 50 (os_init tt [EvNow 0; EvPoll 0 0 50000000 [0]] [])) = Ok 0 /\
@@ -75,3 +105,4 @@ Proof. vm_compute. repeat split; reflexivity. Qed.
 Print Assumptions sendto_all_or_nothing.
 Print Assumptions sendto_failure_reported.
 Print Assumptions recvfrom_faithful.
+Print Assumptions driver_sendto_pops_and_resolves.
